@@ -24,21 +24,32 @@ TRUSTED = ['Model/ActionLog.v is hand-written from docactions.py / action_summar
            'the encode/decode round trip of ApplyUndoActions (actions.get_action_repr / action_from_repr) is not modelled: '
            'cells are their encodings']
 ASSUMPTIONS = ['ValLaws: equal_encoding is an equivalence, strict_equal implies it, Column.set is idempotent and compatible '
-               'with it and leaves type defaults alone (hypothesis of every theorem; holds for the ZOps instance used in '
-               'the examples)',
-               'theorems proved for bundles of doc actions whose undo does not rely on the calc summary, recalculation or '
-               'the conversion delta of doModifyColumn (C01_undo_restores_doc_partial); Calc/Flush events are covered by '
-               'the event-trace tie and the implementation oracles, not yet by a theorem']
-TECHNIQUE = ('Coq proofs over a hand-written executable model of the action log (per-action inverse lemmas, congruence, '
-             'sequence and history theorems) + event-trace refinement against the running engine (vm_compute) + undo / '
-             'whole-history undo oracles on the implementation')
-LEVEL_TEXT = ('Kernel-checked: every doc action kind is inverted by the undo actions it appends (with the exact exception '
-              'set), congruence of replay under document equivalence, undo of any sequence of doc actions, undo of whole '
-              'histories bundle by bundle, well-formedness preserved. The model is compared with the running engine on '
-              'recorded event traces of random histories on every run.')
-LEVEL_NOTE = ('kernel strength: the theorem is about the action log, not about useractions.py; bundles with calc deltas '
-              '(formula recalculation) are validated by trace refinement and oracles only (C01_statement is the full '
-              'statement; C01_undo_restores_doc_partial is what is proved).')
+               'with it and leaves type defaults alone (hypothesis of every theorem; proved for the ZOps instance of the '
+               'examples; for the engine values it is what the event-trace tie exercises)',
+               'proved class (C01_undo_restores_docs_calcs_partial, hypothesis bundle_ok2, a computable check evaluated on '
+               'every recorded trace): doc actions first, then calc deltas, then the flush; start document well formed and '
+               'free of names with the reserved "-" prefix; doc actions lossless (no formula column with values removed, no '
+               'ReplaceTableData on a table with formula columns, no ModifyColumn changing the type); every calc delta names '
+               'existing rows and its first `before` equals the current cell up to encoding (SC2)',
+               'NOT proved: renames/removals between a calc delta and the flush (stage 3), per-column flushes of '
+               'doModifyColumn, lossy doc actions inside a bundle with their summary-side restores; these are covered by the '
+               'event-trace tie and the implementation oracles only. The full statement is false of the faithful model: '
+               'C01_refuted_removed_table_new_row, C01_refuted_to_formula_type_change, '
+               'C01_refuted_front_restore_written_cell (each replayed on the engine: known findings)']
+TECHNIQUE = ('Coq proofs over a hand-written executable model of the action log (per-action inverse lemmas, congruence with '
+             'exception sets carried through renames, ActionSummary invariants: created cells / presence maps / LabelRenames, '
+             'flush analysis) + event-trace refinement against the running engine (vm_compute) + undo / whole-history undo '
+             'oracles on the implementation')
+LEVEL_TEXT = ('Kernel-checked for all documents and all bundles of the shape "doc actions, then calc deltas, then flush" that '
+              'pass the computable side conditions (bundle_ok2): replaying the undo list in reverse restores tables, schema, '
+              'row ids and every cell up to encoding; every doc action kind is inverted by its own undo (exact exception '
+              'sets); undo of whole histories bundle by bundle; well-formedness preserved. The full statement over arbitrary '
+              'interleavings is refuted by three kernel-checked witnesses, which are real engine defects (known findings). '
+              'The model is compared with the running engine on recorded event traces of random histories on every run, and '
+              'the share of real traces that satisfy the hypotheses of the proved theorem is reported.')
+LEVEL_NOTE = ('kernel strength: the theorems are about the action log (docactions/action_summary/action_obj), not about '
+              'useractions.py. Stage 3 (renames/removals between a calc delta and the flush, per-column flushes) is '
+              '_partial: validated by trace refinement and oracles only. Four known findings.')
 PROOF_TIMEOUT = 900
 
 
@@ -76,6 +87,11 @@ def correspond(ctx):
     if code & (K.B_SC1 | K.B_SC2):
       n_sc += 1
       ctx.bump('side-condition-violated:' + ('SC1' if code & K.B_SC1 else '') + ('SC2' if code & K.B_SC2 else ''))
+    ctx.bump('theorem-hypotheses-hold' if not code & K.B_NOTHM else 'outside-proved-class')
+    if not code & K.B_NOTHM and code & K.B_MUNDO:
+      # C01_undo_restores_docs_calcs_partial applies to this very trace and the model agrees with the engine on it,
+      # yet replaying the engine's undo list does not restore: impossible unless model and engine outputs differ
+      ctx.broken('theorem contradicted on a recorded trace', json.dumps({'bundle': meta['bundle']}, default=repr)[:800])
     if code & K.B_MUNDO:
       # the model, replaying the ENGINE's undo list, does not get back to the start: the engine oracle must agree
       eng = [i for i in res['issues'] if i['prop'] == 'C01' and i['replay'].get('bundle') == meta['bundle']]
